@@ -136,6 +136,20 @@ def wire_mailbox(name: str) -> bytes:
 
 # -- message bytes ------------------------------------------------------------
 
+def pump(rng: random.Random) -> bytes:
+    """A 'pumped' string: a short unit repeated many times after a prefix
+    that looks like the start of something the server's regexes recognise,
+    with a tail that makes the overall match fail -- the input shape that
+    exposes super-linear backtracking in regular expressions."""
+    prefix = rng.choice([b'Re', b'Fwd', b'Fw', b're:', b'', b'Re ', b'[',
+                         b'=?utf-8?q?', b'"', b'<'])
+    unit = rng.choice([b'[x]', b'[x] ', b'[]', b're: ', b'[a][b]', b' ',
+                       b'(', b'\t ', b'<a>', b'=?', b'a@b,', b'\\"', b'x ',
+                       b'fwd: [t] '])
+    tail = rng.choice([b'', b'x', b'!', b']', b':', b'\xff'])
+    return prefix + unit * rng.choice([25, 40, 60, 200]) + tail
+
+
 def hostile_message(rng: random.Random, cid: bytes = b'x',
                     max_len: int = 4000) -> bytes:
     r = rng.random()
@@ -159,12 +173,13 @@ def hostile_message(rng: random.Random, cid: bytes = b'x',
             b'Re: ' * rng.choice([1, 5, 400, 3000]) + b'x', b'=?utf-8?b?////?=',
             b'=?bogus?q?x?=', b'a\rb', b'\xe9\xe8 8bit', b'"q" \\ back',
             b'x' * 3000, b'', b' ', b'[list] fwd: re: x (fwd)',
-            b'Re[2]: x', b'=?utf-8?q?=E2=82=AC?= euro']),
+            b'Re[2]: x', b'=?utf-8?q?=E2=82=AC?= euro', pump(rng),
+            pump(rng)]),
         lambda: b'From: ' + rng.choice([
             b'"a\rb" <x@y>', b'"Quote \\" here" <q@example.com>', b'<>',
             b'a@b, c@d, "e" <f@g>', b'group: a@b, c@d;', b'\xff <x@y>',
             b'(comment) x@y', b'x' * 500, b'@', b'"unterminated <x@y>',
-            b'=?utf-8?b?w6k=?= <e@x>', b'a@b\r\n\tc@d']),
+            b'=?utf-8?b?w6k=?= <e@x>', b'a@b\r\n\tc@d', pump(rng)]),
         lambda: b'To: ' + rng.choice([b'undisclosed-recipients:;', b'a@b',
                                       b',,,', b'"x" y z <', b'\x00']),
         lambda: b'Message-ID: ' + rng.choice([b'<a@b>', b'no-brackets',
